@@ -606,7 +606,7 @@ def withLock (strict : Bool) (D : List Nat) (o : DeleteOpts) (held : Option Nat)
   (deleteBody strict D o held).attemptAll.bind fun r =>
     match r with
     | .ok st => .ret st
-    | .err e => gcLockDrop.bind fun _ => .fail e
+    | .err e => gcLockReleaseOnError.bind fun _ => .fail e
     | .panic site => gcLockDrop.bind fun _ => .panic site
 
 theorem deleteBands_eq (strict : Bool) (D : List Nat) (o : DeleteOpts) :
@@ -648,11 +648,19 @@ theorem gcLockDrop_runs {s : Store} (hl : fileAt s .gcLock = true) :
   rw [hs, removeFile_resp_of_file hl] at hn
   exact Runs.ret' hn ()
 
+theorem gcLockReleaseOnError_runs {s : Store} (hl : fileAt s .gcLock = true) :
+    ∀ w : World, w.Quiet → w.store = s → Runs gcLockReleaseOnError w (.ok ()) (s.erase .gcLock) [] := by
+  intro w hq hs
+  simp only [gcLockReleaseOnError, perform, bind_def, op_bind, ret_bind, pure_def]
+  refine Runs.op_mut hq rfl (by intro _ _ _ h; cases h) fun w1 hn => ?_
+  rw [hs, removeFile_resp_of_file hl] at hn ⊢
+  exact Runs.ret' hn ()
+
 theorem withLock_err {strict : Bool} {D : List Nat} {o : DeleteOpts} {held : Option Nat} {w : World}
     {e : Err} {s2 : Store} (h : Runs (deleteBody strict D o held) w (.err e) s2 [])
     (hl : fileAt s2 .gcLock = true) : Runs (withLock strict D o held) w (.err e) (s2.erase .gcLock) [] := by
   refine Runs.bind_ok0 h.attemptAll fun w1 hn => ?_
-  refine Runs.bind_ok0 (gcLockDrop_runs hl w1 hn.quiet hn.store) fun w2 hn2 => ?_
+  refine Runs.bind_ok0 (gcLockReleaseOnError_runs hl w1 hn.quiet hn.store) fun w2 hn2 => ?_
   exact Runs.fail' hn2 _
 
 /-- The newest band directory (if any) has a tail file. -/
